@@ -11,31 +11,31 @@ def repo_commits(prefix):
 
 CHECKS = {
  "C01": dict(engine="proptest+libfuzzer", technique="property-based testing (proptest, structured near-valid packets, exhaustive short strings/ids) + coverage-guided fuzzing (libFuzzer), both with and without overflow checks",
-   text="Totality of every decoder/accessor/formatter on generated inputs: spec-conformant packets with 0-3 field mutations and byte/bit/length edits, chunk lists with single faults in any order, raw bytes up to 65 KiB, every string up to length 4 over an alphabet plus random UTF-8, all small ids. Run in two build profiles (overflow checks on / off) and under libFuzzer with ASan+debug assertions. Exploration, not proof: absence of panics is shown only for what was generated.",
+   text="Totality of every decoder/accessor/formatter on generated inputs: spec-conformant packets with 0-3 field mutations and byte/bit/length edits, chunk lists with single faults in any order, raw bytes up to 65 KiB, every string up to length 4 over an alphabet plus random UTF-8 and names of 256 / 512 / 65536 +- 4 bytes built around accepted names, all small ids. Run in two build profiles (overflow checks on / off) and under libFuzzer with ASan+debug assertions. Exploration, not proof: absence of panics is shown only for what was generated.",
    note="Trusts catch_unwind to observe every panic; aborts/stack overflows would kill the check (exit 2, not a verdict). Fuzzing covers the detector crate only.", ref="DESIGN.md section 4 C01"),
  "C02": dict(engine="proptest+libfuzzer", technique="differential testing against an independent reference validator + encode/decode round trip (proptest decision-table generator, libFuzzer)",
-   text="Accept/reject agreement with a reference validator transcribed from the statement, accessor-by-accessor comparison and byte-exact re-encoding, over constructed valid packets with one-rule-at-a-time mutations, an explicit enumeration of the decision-table cells, and libFuzzer byte strings. Both build profiles.",
+   text="Accept/reject agreement with a reference validator transcribed from the statement, accessor-by-accessor comparison and byte-exact re-encoding, over constructed valid packets with one-rule-at-a-time mutations and byte edits (incl. runs of equal bytes over neighbouring fields), each decoded on the worker thread and as the first packet of a fresh thread, an explicit enumeration of the decision-table cells, and libFuzzer byte strings. Both build profiles.",
    note="The reference validator is trusted as the reading of the statement; both sides share only the board MAC table.", ref="DESIGN.md section 4 C02"),
  "C03": dict(engine="proptest+libfuzzer", technique="differential testing (own bitwise CRC-32C reference) + fault injection: exhaustive single-bit flips, sampled 2/3-bit flips, bursts at every offset",
-   text="Reference validator with an independent CRC-32C agrees on every generated chunk; accepted chunks re-encode to the input; every 1-bit flip (exhaustive up to 4 KiB), sampled 2/3-bit flips and a <=32-bit burst at every bit offset of each accepted chunk are rejected; 44 payload-length classes around 2^k and at the top of the 16-bit length field are covered in both tiers.",
+   text="Reference validator with an independent CRC-32C agrees on every generated chunk; accepted chunks re-encode to the input; every 1-bit flip (exhaustive up to 4 KiB), sampled 2/3-bit flips and a <=32-bit burst at every bit offset of each accepted chunk are rejected; 44 payload-length classes around 2^k and at the top of the 16-bit length field are covered in both tiers, and 63 oversize slices (a chunk followed by 16383 .. 2^20 zero words, CRC sealed over all of it) must be rejected.",
    note="2/3-bit flips are sampled, not exhaustive. Burst bit order = transmission order (LSB first).", ref="DESIGN.md section 4 C03"),
  "C04": dict(engine="proptest+libfuzzer", technique="metamorphic testing over arrival orders (all n! up to 6 chunks) + differential against direct decoding + single-fault injection",
    text="Every arrival order (identity, reversal, adjacent transpositions, a generated permutation, all n! for <= 6 chunks) gives the same result; fault-free result equals direct decoding of the concatenation; every injected fault (drop, duplicate, foreign board, foreign chip, EOM toggle, resize, renumbered id, bytes moved between chunks, one id lost and another repeated) is rejected.",
    note="Orders beyond 6 chunks are sampled.", ref="DESIGN.md section 4 C04"),
  "C05": dict(engine="proptest+libfuzzer", technique="differential testing against an independent reference validator + accessor model + round trip (proptest, libFuzzer)",
-   text="Reference validator agreement, channel lists through an independent readout table, waveform_at for all 79 channels (present/absent), scalar accessors, byte-exact re-encoding; constructed packets with one-rule mutations, systematic single-channel masks and all values of the four enum-like header bytes.",
+   text="Reference validator agreement, channel lists through an independent readout table, waveform_at for all 79 channels (present/absent), scalar accessors, byte-exact re-encoding; constructed packets with one-rule mutations, systematic single-channel masks, all values of the four enum-like header bytes, and the largest packets of the format (60-79 channels x 400-511 samples).",
    note="The reference validator is trusted as the reading of the statement; shares only the MAC table.", ref="DESIGN.md section 4 C05"),
  "C06": dict(engine="proptest+libfuzzer", technique="differential testing against a reference validator + round trip; exhaustive single-bit and counter-ordering enumeration",
-   text="Reference validator agreement, all accessors incl. the Option wrappers, ordering of accepted counters, byte-exact re-encoding; generated boundary-value packets with mutations plus exhaustive enumeration of all 640 single-bit changes on 6 base packets, all 256 counter orderings on 5 bases, all lengths 0..=200.",
+   text="Reference validator agreement, all accessors incl. the Option wrappers, ordering of accepted counters, byte-exact re-encoding; generated boundary-value packets with mutations (incl. the same bits flipped in two words and one word copied over another) plus exhaustive enumeration of all 640 single-bit changes on 6 base packets, all 256 counter orderings on 5 bases, all lengths 0..=200.",
    note="Reference validator trusted as the reading of the statement.", ref="DESIGN.md section 4 C06"),
  "C07": dict(engine="proptest+libfuzzer", technique="differential testing against a hand-written longest-prefix scanner + history testing of the resume protocol over all single cuts and generated partitions; exhaustive word classification in the thorough tier",
    text="Entries, consumed length and untouched remainder equal a 30-line reference scanner; a second call makes no progress; feeding the stream in pieces (every single cut position, generated multi-piece partitions) equals parsing it whole; word classification enumerated (all 2^32 words in thorough).",
    note="Multi-piece partitions are sampled.", ref="DESIGN.md section 4 C07"),
  "C08": dict(engine="proptest", technique="exhaustive enumeration (names, run numbers, boards x chips x channels) against a reference grammar and bijection counting, plus proptest for non-ASCII / other lengths",
-   text="Purity of the maps under generated call histories and a board-major sweep (same answer as in a run-major sweep); every 4-byte name over an alphabet (all 128^4 ASCII strings in thorough) and other lengths through all 13 name parsers against a reference grammar; accepted names injective; for every run number 0..=20000 and extremes the wire map is a bijection onto 256 wires or all-Err, the PWB placement has exactly 64 boards on 64 cells or all-Err, the pad map is a bijection onto 18432 pads; simulation == run 5000; wire/pad-column association equals geometry.",
+   text="Purity of the maps under generated call histories and a board-major sweep (same answer as in a run-major sweep); every 4-byte name over an alphabet (all 128^4 ASCII strings in thorough) and other lengths through all 13 name parsers against a reference grammar; accepted names injective and `==` on the parsed name types true exactly for identical names (all pairs); names of 256 / 512 / 65536 +- 4 bytes rejected; for every run number 0..=20000 and extremes the wire map is a bijection onto 256 wires or all-Err, the PWB placement has exactly 64 boards on 64 cells or all-Err, the pad map is a bijection onto 18432 pads; simulation == run 5000; wire/pad-column association equals geometry.",
    note="Geometry association is read through the verif-hooks feature (wire_to_pad_column / pad_column_to_wires); golden board tables trusted.", ref="DESIGN.md section 4 C08"),
  "C09": dict(engine="proptest", technique="property-based robustness testing (proptest): junk bank lists, realistic and forward-model events, CRC-valid extreme edits; catch_unwind + finiteness oracle; both overflow-check profiles; thorough tier adds coverage-guided fuzzing (honggfuzz) of a byte-driven event generator",
-   text="No generated bank list makes event building, timestamp(), avalanches() or vertex() panic, and every returned avalanche/vertex is finite, in builds with and without overflow checks; generated: junk banks, hit-pattern events, forward-model annihilations, and events re-encoded with valid CRCs/baselines after extreme edits (i16/ADC limits, waveform lengths 64..703 (65533 thorough), requested_samples 0/1/100/101/511, all 79 channels, full wire ring, duplicated/dropped/foreign/corrupted banks, all calibration eras).",
+   text="No generated bank list makes event building, timestamp(), avalanches() or vertex() panic, and every returned avalanche/vertex is finite, in builds with and without overflow checks; generated: junk banks, hit-pattern events, forward-model annihilations, and events re-encoded with valid CRCs/baselines after extreme edits (i16/ADC limits, waveform lengths 64..703 (65533 thorough), requested_samples 0/1/100/101/511, all 79 channels, full wire ring, header fields the reconstruction does not read varied (threshold mask != sent mask, counters, timestamps), duplicated/dropped/foreign/corrupted banks, all calibration eras).",
    note="An abort / stack overflow kills the process: the check then replays the per-worker breadcrumb cases in fresh processes and reports the one that dies again as the violation.", ref="DESIGN.md section 4 C09"),
  "C10": dict(engine="proptest", technique="model-based testing: slot-by-slot reference model of the event's signal arrays (own calibration reader) compared through a read-only hook; single-fault injection; hook-free single-pulse variant",
    text="For generated events over all boards/chips/channels, run eras and bank orders the wire and pad signal arrays equal an independent model exactly (slot, delay, baseline, gain by f64 bits), the timestamp is the TRG field, fault-free events are accepted exactly when all maps/calibrations exist and every injected single inconsistency (18 kinds, incl. malformed wire / PWB / TRG payloads that the reference validators of C02 / C05 / C06 reject) is rejected; a hook-free variant checks wire, time bin and pad row of single pulses through avalanches().",
